@@ -1630,13 +1630,7 @@ class Parameter(_ParameterBase):
 
     def _relink(self, obj, name, ref):
         """Link this parameter on obj to ref, or drop its current link if ref is None."""
-        if ref is not None:
-            self.owner.param._update_ref(name, ref)
-        else:
-            refs = obj._param__private.refs
-            del refs[name]
-            if name in obj._param__private.async_refs:
-                obj._param__private.async_refs.pop(name).cancel()
+        obj.param._update_ref(name, ref)
 
     def _validate_value(self, value, allow_None):
         """Validate the parameter value against constraints.
@@ -2163,8 +2157,15 @@ class Parameters:
             dep_obj = watcher.cls if watcher.inst is None else watcher.inst
             dep_obj.param.unwatch(watcher)
         self_.self._param__private.ref_watchers = []
-        refs = dict(self_.self._param__private.refs, **{name: ref})
-        deps = {name: resolve_ref(ref) for name, ref in refs.items()}
+        refs = dict(self_.self._param__private.refs)
+        if ref is None:
+            refs.pop(name, None)
+        else:
+            refs[name] = ref
+        deps = {
+            pname: resolve_ref(pref, recursive=self_[pname].nested_refs)
+            for pname, pref in refs.items()
+        }
         self_._setup_refs(deps)
         self_.self._param__private.refs = refs
 
